@@ -49,33 +49,68 @@ def main():
     assert len(demos) >= 1, "no demo .rs file"
     res = {"seed": name, "demo_files": demos}
     try:
-        for f in demos:
-            shutil.copy(os.path.join(d, f), os.path.join(wt, "crates/lexgen/tests", f))
-        tests = [f[:-3] for f in demos]
-        args = ["cargo", "test", "--offline", "-p", "lexgen"]
-        for t in tests:
-            args += ["--test", t]
+        append_to = None
+        inverted = "--inverted" in sys.argv
+        if "--append-to" in sys.argv:
+            append_to = sys.argv[sys.argv.index("--append-to") + 1]
+            pkg = sys.argv[sys.argv.index("--pkg") + 1]
+            target = os.path.join(wt, append_to)
+            orig_text = open(target).read()
+
+            def place():
+                with open(target, "a") as fh:
+                    for f in demos:
+                        fh.write("\n" + open(os.path.join(d, f)).read())
+
+            def unplace():
+                cur = open(target).read()
+                idx = cur.find("\n" + open(os.path.join(d, demos[0])).read())
+                open(target, "w").write(cur[:idx] if idx >= 0 else cur)
+            args = ["cargo", "test", "--offline", "-p", pkg]
+        else:
+            def place():
+                for f in demos:
+                    shutil.copy(os.path.join(d, f), os.path.join(wt, "crates/lexgen/tests", f))
+
+            def unplace():
+                for f_ in demos:
+                    os.remove(os.path.join(wt, "crates/lexgen/tests", f_))
+            tests = [f[:-3] for f in demos if not f.endswith("_twin.rs")] if inverted else [f[:-3] for f in demos]
+            args = ["cargo", "test", "--offline", "-p", "lexgen"]
+            for t in tests:
+                args += ["--test", t]
+        place()
         rc, out = sh(args, cwd=wt, env=env)
         p, f = counts(out)
         res["demo_on_original"] = {"rc": rc, "passed": p, "failed": f}
+        unplace()
         rc, out = sh(["git", "-C", wt, "apply", os.path.join(d, "patch.diff")])
         res["patch_applies"] = rc == 0
         if rc != 0:
             res["apply_error"] = out[-400:]
+        place()
         rc, out = sh(args, cwd=wt, env=env)
         p, f = counts(out)
         res["demo_with_change"] = {"rc": rc, "passed": p, "failed": f,
                                    "tail": [l for l in out.splitlines() if "panicked" in l or "FAILED" in l][:6]}
-        for f_ in demos:
-            os.remove(os.path.join(wt, "crates/lexgen/tests", f_))
+        unplace()
         rc, out = sh(["cargo", "test", "--workspace", "--no-fail-fast", "--offline"], cwd=wt, env=env)
         p, f = counts(out)
         res["suite_with_change"] = {"rc": rc, "passed": p, "failed": f}
-        res["confirmed"] = (res["patch_applies"] and res["demo_on_original"]["rc"] == 0
-                            and res["demo_on_original"]["passed"] > 0
-                            and res["demo_with_change"]["rc"] != 0
-                            and res["suite_with_change"]["rc"] == 0
-                            and res["suite_with_change"]["passed"] == 119)
+        if inverted:
+            # the demonstration is an ill-formed definition: it must be rejected (not compile) on the
+            # original code and be accepted with the change
+            res["inverted"] = True
+            res["confirmed"] = (res["patch_applies"] and res["demo_on_original"]["rc"] != 0
+                                and res["demo_with_change"]["rc"] == 0
+                                and res["suite_with_change"]["rc"] == 0
+                                and res["suite_with_change"]["passed"] == 119)
+        else:
+            res["confirmed"] = (res["patch_applies"] and res["demo_on_original"]["rc"] == 0
+                                and res["demo_on_original"]["passed"] > 0
+                                and res["demo_with_change"]["rc"] != 0
+                                and res["suite_with_change"]["rc"] == 0
+                                and res["suite_with_change"]["passed"] == 119)
     finally:
         if "--keep" not in sys.argv:
             sh(["git", "-C", REPO, "worktree", "remove", "--force", wt])
